@@ -108,6 +108,18 @@ CHECKS = {
         note="write_yaml is the identity on trees symbolically (real YAML text in every replay); string-built YAML is parsed by the "
              "real ruamel parser with placeholder numerals; the FloorSet converter's numeric content is numpy-only and not decided.",
         design="5/C19"),
+    'C20': dict(
+        text="One inductive history step from an arbitrary reachable pre-state: each probe (netlist load with verdict and orthogon "
+             "roles, die load and decomposition, allocation load + griddify, pseudo-Boolean encoding, Strop construction, "
+             "legaliser equations at a symbolic configuration, calls receiving mutable defaults) is executed on the same symbolic "
+             "design after a symbolic history (class-wide Rectangle tolerances left by a design of scale within a factor 1000, "
+             "earlier encodings in the diagram store, an earlier legaliser model, earlier default-argument calls) and from the "
+             "import-time state; z3 proves the observables equal. Margin mode: any difference is a violation. Band mode (no "
+             "separation margin): the tolerance-caused difference is the recorded known finding, and the companion obligation "
+             "'same result when the tolerances are forced equal' must still be proved.",
+        note="history length one (inductive step), probes at the quick bounds of their own properties; state changed other than "
+             "through FRAME's API is outside.",
+        design="5/C20"),
     'C03': dict(
         text="Bounded symbolic model checking of the real create_initial_allocation (Die, Netlist, create_squares, fixed-rectangle "
              "detection, overlap ratios, Allocation constructor) with module rectangle positions/widths symbolic: z3 proves for every "
